@@ -34,6 +34,51 @@ pub enum Case {
     E57 { program: Program, damage: Vec<Damage> },
     /// e57-check-crc on a directory of files; `damaged`: which of them carry a damaged page
     Dir { programs: Vec<Program>, damaged: Vec<bool> },
+    /// e57-check-crc on one file of about `pages` pages with a bit flipped in page `first`, `first + step`, ... in turn
+    CrcSweep { pages: u32, first: u32, step: u32 },
+    /// a plain XYZ file of exactly `n` points (the end of the point data lands at a chosen offset within a page)
+    XyzCount { n: u32 },
+}
+
+fn run_crc_sweep(pages: u32, first: u32, step: u32, v: &mut Verdict) -> Result<(), String> {
+    let p = Program {
+        guid: "{crc-sweep}".into(),
+        ops: vec![Op::Blob(gen::BlobSpec { len: pages.saturating_sub(2) * 1020, seed: 9, chunk: 0, xmlish: false })],
+        end: prog::End::Finalize,
+    };
+    let dev = MemDev::new();
+    let h = dev.handle();
+    let mut tr = Trace::default();
+    if guard(|| prog::exec(&p, dev, &mut tr)).is_err() || tr.error.is_some() || !tr.finalized {
+        return Err(format!("writing a file of {pages} pages failed: {:?}", tr.error));
+    }
+    let good = h.bytes();
+    let np = (good.len() / 1024) as u32;
+    let sc = Scratch::new().map_err(|e| format!("infra: {e}"))?;
+    let file = sc.0.join("big.e57");
+    let mut pg = first % np;
+    let mut runs = 0u64;
+    loop {
+        let mut b = good.clone();
+        b[pg as usize * 1024 + 100 + (pg as usize % 900)] ^= 0x10;
+        std::fs::write(&file, &b).map_err(|e| format!("infra: {e}"))?;
+        let o = Command::new(tool("e57-check-crc")).arg(&file).output().map_err(|e| format!("infra: cannot run e57-check-crc: {e}"))?;
+        runs += 1;
+        if o.status.success() {
+            return Err(format!("e57-check-crc exits successfully for a file of {np} pages with a flipped bit in page {pg}"));
+        }
+        pg += step.max(1);
+        if pg >= np {
+            break;
+        }
+    }
+    std::fs::write(&file, &good).map_err(|e| format!("infra: {e}"))?;
+    let o = Command::new(tool("e57-check-crc")).arg(&file).output().map_err(|e| format!("infra: cannot run e57-check-crc: {e}"))?;
+    if !o.status.success() {
+        return Err(format!("e57-check-crc fails on an intact file of {np} pages"));
+    }
+    v.execs = runs + 1;
+    Ok(())
 }
 
 fn run_dir(programs: &[Program], damaged: &[bool], v: &mut Verdict) -> Result<(), String> {
@@ -304,10 +349,22 @@ impl Check for C20 {
         for i in 0..9000u32 {
             big.push(Line { xyz: [format!("{}", i as f32 * 0.25), format!("{}", -(i as f32)), "1.5".into()], rgb: [(i % 256) as u8, (i / 7 % 256) as u8, 255 - (i % 256) as u8], extra: vec![], keep: 6 });
         }
-        vec![Case::Colors, Case::Xyz { lines: big, crlf: false }]
+        let mut out = vec![Case::Colors, Case::Xyz { lines: big, crlf: false }];
+        // every page of a 300-page file damaged in turn; the pages around multiples of 255 / 256 of a bigger one
+        out.push(Case::CrcSweep { pages: 300, first: 0, step: 1 });
+        out.push(Case::CrcSweep { pages: 1100, first: 254, step: 255 });
+        out.push(Case::CrcSweep { pages: 1100, first: 255, step: 256 });
+        // point counts sweeping the end of the point data through every offset within a page (15 bytes per point,
+        // 68 points per page payload), with one, two and three data packets
+        for base in [60u32, 4380, 8680] {
+            for k in 0..68 {
+                out.push(Case::XyzCount { n: base + k });
+            }
+        }
+        out
     }
     fn describe_fixed(_t: Tier) -> Option<String> {
-        Some("one file with all 256 values in each colour channel; one file with 9000 points (more than one data packet)".into())
+        Some("one file with all 256 values in each colour channel; one file with 9000 points (more than one data packet); e57-check-crc on a 300-page file with every page damaged in turn and on a 1100-page file at the multiples of 255 and 256; XYZ files of n points for 3 x 68 consecutive n (end of the point data at every offset within a page, 1 to 3 data packets)".into())
     }
     fn gen(s: &mut Src, _t: Tier) -> Case {
         if s.chance(1, 10) {
@@ -364,6 +421,17 @@ impl Check for C20 {
                 run_xyz(lines, *crlf, &mut v)
             }
             Case::Dir { programs, damaged } => run_dir(programs, damaged, &mut v),
+            Case::CrcSweep { pages, first, step } => {
+                v.nt("checksum_tool_on_a_big_file_page_by_page");
+                run_crc_sweep(*pages, *first, *step, &mut v)
+            }
+            Case::XyzCount { n } => {
+                v.nt("point_count_sweep");
+                let lines: Vec<Line> = (0..*n)
+                    .map(|i| Line { xyz: [format!("{}", i as f32 * 0.5), format!("{}", -(i as f32) * 0.25), format!("{}", (i % 97) as f32)], rgb: [(i % 256) as u8, (i / 3 % 256) as u8, (i / 11 % 256) as u8], extra: vec![], keep: 6 })
+                    .collect();
+                run_xyz(&lines, false, &mut v)
+            }
             Case::E57 { program, damage } => {
                 if matches!(program.end, prog::End::FinalizeMinified { .. }) {
                     v.nt("single_line_xml_document");
